@@ -54,7 +54,9 @@ def showEvents : List Ev → List String → String
 def run (args : List String) : String :=
   match args with
   | [fin, k, sched, pkts] =>
-    let fin? : Option Fin := if fin == "e" then some .eof else if fin == "r" then some .reset
+    -- `E`: the transport reports the end together with the last bytes; the reader reads on after such a packet
+    -- (unless it is a close packet) and meets the end again on a read of its own: the same events as for `e`
+    let fin? : Option Fin := if fin == "e" || fin == "E" then some .eof else if fin == "r" then some .reset
                               else if fin == "h" then some .hang else none
     match fin?, k.toInt?, buildStream (pkts.splitOn ",") 0 [] with
     | some fin, some k, some stream =>
@@ -102,7 +104,8 @@ def sendWriteFail (total k : Nat) : Bool × Nat :=
 /-- `wf <n> <k>`: a request of n bytes at packet size 512 -/
 def runWf (args : List String) : String :=
   match args with
-  | [n, k] =>
+  -- `once`: only the k-th write fails, later ones would succeed — the send stops at the first failure all the same
+  | [n, k] | [n, k, "once"] =>
     match n.toNat?, k.toNat? with
     | some n, some k =>
       let r := sendWriteFail ((n + 503) / 504) k
